@@ -199,11 +199,21 @@ func (r *runner) snap() snapshot {
 	pool, outpoints, orphans, byPrev := mp.VerifPoolDump()
 	sn := snapshot{pool: map[int]bool{}, orphans: map[int]bool{}, tags: map[int]int{}, byPrev: map[string][]int{}}
 	var ids []int
-	for h := range pool {
+	heights := map[int]int32{}
+	for h, ht := range pool {
 		ids = append(ids, r.idOf(h))
 		sn.pool[r.idOf(h)] = true
+		heights[r.idOf(h)] = ht
 	}
 	sort.Ints(ids)
+	idh := make([]string, len(ids))
+	for i, id := range ids {
+		idh[i] = fmt.Sprintf("%d@%d", id, heights[id])
+	}
+	pstr := "-"
+	if len(idh) > 0 {
+		pstr = strings.Join(idh, ",")
+	}
 	var sp []kv
 	for op, h := range outpoints {
 		t, i := r.opStr(op)
@@ -235,7 +245,7 @@ func (r *runner) snap() snapshot {
 	if len(os) > 0 {
 		ostr = strings.Join(os, ",")
 	}
-	sn.text = "p=" + joinInts(ids) + ";s=" + showKV(sp) + ";o=" + ostr + ";b=" + showKV(bp)
+	sn.text = "p=" + pstr + ";s=" + showKV(sp) + ";o=" + ostr + ";b=" + showKV(bp)
 
 	// public API must tell the same story
 	bad := ""
@@ -248,6 +258,68 @@ func (r *runner) snap() snapshot {
 		h, ok := outpoints[op]
 		if (sp == nil) != !ok || (sp != nil && *sp.Hash() != h) {
 			bad = ";api-checkspend"
+		}
+	}
+	// descriptors: TxDescs / MiningDescs / TxHashes / RawMempoolVerbose tell the same story as the pool map
+	seen := map[int]bool{}
+	for _, d := range mp.TxDescs() {
+		id := r.idOf(*d.Tx.Hash())
+		def, ok := r.u.defs[id]
+		if !ok || !sn.pool[id] || seen[id] || d.Fee != def.fee || d.FeePerKB != def.fee*1000/def.vsize ||
+			d.Height != heights[id] {
+			bad = ";api-desc"
+		}
+		seen[id] = true
+	}
+	for _, d := range mp.MiningDescs() {
+		id := r.idOf(*d.Tx.Hash())
+		def, ok := r.u.defs[id]
+		if !ok || !sn.pool[id] || d.Fee != def.fee || d.FeePerKB != def.fee*1000/def.vsize || d.Height != heights[id] {
+			bad = ";api-miningdesc"
+		}
+	}
+	for _, h := range mp.TxHashes() {
+		if !sn.pool[r.idOf(*h)] {
+			bad = ";api-hashes"
+		}
+	}
+	raw := mp.RawMempoolVerbose()
+	if len(raw) != len(pool) {
+		bad = ";api-raw"
+	}
+	for hs, e := range raw {
+		h, err := chainhash.NewHashFromStr(hs)
+		if err != nil {
+			bad = ";api-raw"
+			continue
+		}
+		id := r.idOf(*h)
+		def, ok := r.u.defs[id]
+		if !ok || !sn.pool[id] || int64(e.Vsize) != def.vsize || int64(e.Size) != def.size ||
+			e.Height != int64(heights[id]) || int64(e.Fee*1e8+0.5) != def.fee {
+			bad = ";api-raw"
+			continue
+		}
+		deps := map[int]bool{}
+		for _, in := range def.ins {
+			// btcd lists a parent when HaveTransaction says so, i.e. pooled OR in the orphan pool
+			if sn.pool[in.txid] || sn.orphans[in.txid] {
+				deps[in.txid] = true
+			}
+		}
+		got := map[int]bool{}
+		for _, ds := range e.Depends {
+			if dh, err := chainhash.NewHashFromStr(ds); err == nil {
+				got[r.idOf(*dh)] = true
+			}
+		}
+		if len(got) != len(deps) {
+			bad = ";api-raw-depends"
+		}
+		for k := range deps {
+			if !got[k] {
+				bad = ";api-raw-depends"
+			}
 		}
 	}
 	for h, id := range r.u.hashID {
@@ -285,6 +357,39 @@ type runner struct {
 	stale               map[int]bool
 	last                snapshot
 	record, steerFailed bool
+	held []func() bool // results handed out earlier; each must still read the same at the end of the run
+}
+
+// hold remembers a result the pool handed out: results are values, later operations must not change them.
+func (r *runner) holdDescs(l []*mempool.TxDesc) {
+	for _, d := range l {
+		d := d
+		h, fee, rate, ht, added := *d.Tx.Hash(), d.Fee, d.FeePerKB, d.Height, d.Added
+		nin, nout := len(d.Tx.MsgTx().TxIn), len(d.Tx.MsgTx().TxOut)
+		r.held = append(r.held, func() bool {
+			return *d.Tx.Hash() == h && d.Tx.MsgTx().TxHash() == h && d.Fee == fee && d.FeePerKB == rate &&
+				d.Height == ht && d.Added.Equal(added) && len(d.Tx.MsgTx().TxIn) == nin && len(d.Tx.MsgTx().TxOut) == nout
+		})
+	}
+}
+
+func (r *runner) holdAccept(ar *mempool.MempoolAcceptResult) {
+	fee, size, n := ar.TxFee, ar.TxSize, len(ar.Conflicts)
+	keys := map[chainhash.Hash]bool{}
+	for h, tx := range ar.Conflicts {
+		keys[h] = *tx.Hash() == h
+	}
+	r.held = append(r.held, func() bool {
+		if ar.TxFee != fee || ar.TxSize != size || len(ar.Conflicts) != n {
+			return false
+		}
+		for h, tx := range ar.Conflicts {
+			if !keys[h] || *tx.Hash() != h {
+				return false
+			}
+		}
+		return true
+	})
 }
 
 func errClass(err error) string {
@@ -542,6 +647,7 @@ type event struct {
 // run executes the history on the REAL code.
 func (r *runner) run() string {
 	r.steerFailed = false
+	r.held = nil
 	var err error
 	r.e, err = newEnv(r.pol, r.maturity)
 	if err != nil {
@@ -593,6 +699,7 @@ func (r *runner) run() string {
 				}
 			default:
 				res = "a:" + r.descIDs(acc)
+				r.holdDescs(acc)
 			}
 		case f[0] == "A" && len(f) == 4:
 			d, ok := r.tx(f[1])
@@ -607,6 +714,7 @@ func (r *runner) run() string {
 				res = "m:" + r.missingIDs(missing)
 			case desc != nil:
 				res = "a:" + r.descIDs([]*mempool.TxDesc{desc})
+				r.holdDescs([]*mempool.TxDesc{desc})
 			default:
 				res = "a:?"
 			}
@@ -628,6 +736,7 @@ func (r *runner) run() string {
 				}
 				sort.Ints(cs)
 				res = fmt.Sprintf("k:%d:%d:%s", int64(ar.TxFee), ar.TxSize, joinInts(cs))
+				r.holdAccept(ar)
 			}
 		case f[0] == "R" && len(f) == 3:
 			d, ok := r.tx(f[1])
@@ -656,7 +765,12 @@ func (r *runner) run() string {
 			}
 			runsOrphans = true
 			opTxs = []int{d.id}
-			res = "a:" + r.descIDs(mp.ProcessOrphans(d.tx))
+			pacc := mp.ProcessOrphans(d.tx)
+			res = "a:" + r.descIDs(pacc)
+			r.holdDescs(pacc)
+			if len(r.held)%3 == 0 {
+				r.holdDescs(mp.TxDescs()) // a listing is a value too
+			}
 		case f[0] == "X" && len(f) == 2:
 			d, ok := r.tx(f[1])
 			if !ok {
@@ -808,6 +922,12 @@ func (r *runner) run() string {
 			}
 		}
 		outs = append(outs, line)
+	}
+	for _, still := range r.held {
+		if !still() {
+			outs = append(outs, "stale-result")
+			break
+		}
 	}
 	return strings.Join(outs, "|")
 }
